@@ -50,6 +50,16 @@ CONSTANT Dev
 AllDevs == {"D_svcb_key_charset", "D_scan_name_empty_label", "D_charstr_entry_no_token",
             "D_scan_int_overflow", "D_scan_string_quote", "D_marker_skips_delimiter",
             "D_del_fast_path"}
+\* deviations of the routes around the reader (not of the reader machine):
+\*   D_parsed_no_apex_unwrap   ZoneBuilder::try_from(parsed::Zonefile) unwraps the
+\*                             apex: a zone file without any record (empty, only
+\*                             comments / directives / $INCLUDE) converts to a
+\*                             parsed::Zonefile and then panics instead of failing
+\*   D_iter_marker_not_consumed IterScanner::scan_opt_unknown_marker only peeks at
+\*                             "\#": the RFC 3597 generic form cannot be scanned
+\*   D_iter_bad_escape_ends_token  IterScanner reads a token up to a malformed
+\*                             escape sequence and drops the rest silently
+RouteDevs == {"D_parsed_no_apex_unwrap", "D_iter_marker_not_consumed", "D_iter_bad_escape_ends_token"}
 
 SP == 32  TAB == 9  CR == 13  LF == 10  LPAR == 40  RPAR == 41
 SEMI == 59  QUOTE == 34  BSL == 92  DOT == 46  AT == 64  DOLLAR == 36  HASH == 35
@@ -841,7 +851,7 @@ ReadAll(text, origin, defaultClass, dv) == ReadAllV(text, origin, defaultClass, 
 \* From<&str>, Zonefile::load from a reader, new / default / with_capacity
 \* followed by extend_from_slice in pieces, reserve and the BufMut interface
 \* in pieces).  All of them build the same buffer: the concatenation.
-Routes == <<"slice", "str", "load", "extend", "bufmut", "capacity">>
+Routes == <<"from_slice", "from_str", "load", "bufmut", "extend", "default_reserve">>
 Loaded(route, chunks) == Concat(chunks)
 \* the pieces a chunked route appends, of size n (the last one shorter)
 RECURSIVE ChunksOf(_, _)
@@ -856,7 +866,7 @@ ChunksOf(text, n) == IF Len(text) <= n THEN <<text>> ELSE <<SubSeq(text, 1, n)>>
 \* else; other data cannot join a cut (glue can) or a CNAME.  Observable:
 \* the list of (owner, error kind) in reading order -- empty means Ok, and
 \* then the apex and class -- and whether the conversion to a ZoneBuilder
-\* has to fail (records outside the zone, a cut with DS but no NS).
+\* has to fail (no apex, records outside the zone, a cut with DS but no NS).
 RECURSIVE WireLabels(_, _)
 WireLabels(n, i) == IF i > Len(n) \/ n[i] = 0 THEN <<>>
                     ELSE <<LowerSeq(SubSeq(n, i + 1, i + n[i]))>> \o WireLabels(n, i + n[i] + 1)
@@ -890,10 +900,56 @@ PzFrom(z, es, i) ==
   IF i > Len(es) THEN z
   ELSE PzFrom(IF "include" \in DOMAIN es[i] THEN z ELSE PzInsert(z, es[i]), es, i + 1)
 \* o: an outcome [entries, err] of the reader
-ParsedOf(o) ==
+ParsedOfD(o, dv) ==
   LET z == PzFrom(PzInit, o.entries, 1)
       errs == IF o.err THEN Append(z.errs, [owner |-> <<0>>, kind |-> "MalformedRecord"]) ELSE z.errs
   IN IF errs # <<>> THEN [ok |-> FALSE, errors |-> errs]
      ELSE [ok |-> TRUE, errors |-> <<>>, apex |-> z.apexWire, class |-> z.class,
-           builder_must_fail |-> z.ooz > 0 \/ (z.cutDs \ z.cutNs) # {}]
+           \* "fail": no apex at all, records outside the zone, DS without NS; "any": left open
+           builder |-> IF ~z.has /\ "D_parsed_no_apex_unwrap" \in dv THEN "panic"
+                       ELSE IF ~z.has \/ z.ooz > 0 \/ (z.cutDs \ z.cutNs) # {} THEN "fail" ELSE "any"]
+ParsedOf(o) == ParsedOfD(o, {})
+\* what the executor is told about the second conversion
+BuilderOf(p) == IF p.ok THEN p.builder ELSE "any"
+\* ------------------------------------------- the string-token scanner
+\* base::scan::IterScanner is a second implementation of the Scanner
+\* interface: every token is a string of its own (no quoting, no origin).  The
+\* record-data grammar over it must be the reader's: the tokens are what the
+\* tokenizer machine makes of each string, a string it rejects (malformed
+\* escape) is an error, relative names are completed with the root (there is
+\* no origin), every token must be used.  (SVCB is left
+\* out: scan_svcb_octets is documented as implemented by some scanners only.)
+RECURSIVE TkRun(_, _, _, _)
+TkRun(tk, text, i, items) ==
+  IF i > Len(text) THEN [tk |-> tk, items |-> items]
+  ELSE LET r == TkStep(tk, text[i]) IN TkRun(r.tk, text, i + 1, items \o r.items)
+\* the token a string is.  bad: the string is not exactly one unquoted token
+\* (a malformed escape, a delimiter inside); syms are then the symbols in
+\* front of the damage
+TokenOf(str) ==
+  LET r == TkRun(TkInit, str \o <<LF>>, 1, <<>>) IN
+  IF r.tk.err THEN [TokItem(r.tk, FALSE, -1) EXCEPT !.k = IF r.tk.m = "word" /\ r.items = <<>> THEN "cut" ELSE "bad"]
+  ELSE IF r.tk.m # "gap" \/ r.tk.e # 0 \/ Len(r.items) # 2 THEN [k |-> "bad"]
+  ELSE IF r.items[1].k # "tok" \/ r.items[1].q \/ r.items[2].k # "lf" THEN [k |-> "bad"]
+  ELSE r.items[1]
+HasDecimalEscape(tok) == \E i \in 1..Len(tok.syms) : tok.syms[i] >= 512
+\* asciiPos / namePos: the indices of the tokens the grammar of this record
+\* type reads with scan_ascii_str / scan_name.  The two scanners differ on a
+\* decimal escape inside an ASCII-string token (the reader takes \056 for
+\* "8", the string-token scanner refuses it): the specification abstains.
+IterData(rtype, strs, asciiPos, namePos, dv) ==
+  LET toks0 == [i \in 1..Len(strs) |-> TokenOf(strs[i])]
+      marker == Len(strs) >= 1 /\ strs[1] = <<BSL, HASH>>
+      cut == {i \in 1..Len(toks0) : toks0[i].k = "cut"}
+      toks == [i \in 1..Len(toks0) |-> IF i \in cut THEN [toks0[i] EXCEPT !.k = "tok"] ELSE toks0[i]]
+  IN IF \E i \in 1..Len(toks0) : toks0[i].k = "bad" THEN UnmodR
+     ELSE IF cut # {} /\ "D_iter_bad_escape_ends_token" \notin dv THEN ErrR
+     ELSE IF cut \cap namePos # {} THEN ErrR                      \* scan_name does report a malformed escape
+     ELSE IF 1 \in cut /\ IsMarker(toks[1]) THEN UnmodR           \* (that scanner tests the string, not the symbols)
+     ELSE IF \E i \in asciiPos : i <= Len(toks) /\ HasDecimalEscape(toks[i]) THEN UnmodR
+     ELSE IF marker /\ "D_iter_marker_not_consumed" \in dv THEN ErrR
+     ELSE Rdata(rtype, toks, 1, "lf", <<0>>, {})                  \* relative names are completed with the root
+IterOutcome(rtype, strs, asciiPos, namePos, dv) ==
+  LET r == IterData(rtype, strs, asciiPos, namePos, dv) IN
+  IF r.r = "ok" THEN [rd |-> r.rd] ELSE IF r.r = "unmod" THEN Unmodelled ELSE [err |-> TRUE]
 =============================================================================
